@@ -145,3 +145,62 @@ func init() {
 		return a[1]
 	}
 }
+
+// pool.hashString: FNV-1a. Names starting with "sym:" denote arbitrary strings: their hash is a free 64-bit
+// variable (one per name), i.e. the check quantifies over every possible FNV value of that string.
+func init() {
+	stubs[repoModule+"/pkg/pool.hashString"] = func(in *Interp, fr *frame, a []Value) Value {
+		s, ok := in.goString(a[0])
+		if !ok {
+			panic(unsupported("hashString of a symbolic string"))
+		}
+		if len(s) > 4 && s[:4] == "sym:" {
+			in.usedInternal = true
+			return in.tc.Var("fnv_"+tagRe.ReplaceAllString(s[4:], "_"), 64)
+		}
+		h := uint64(14695981039346656037)
+		for i := 0; i < len(s); i++ {
+			h ^= uint64(s[i])
+			h *= 1099511628211
+		}
+		return in.tc.Const(h, 64)
+	}
+	// sort.Slice as insertion sort through the caller's less closure (symbolic comparisons fork)
+	stubs["sort.Slice"] = func(in *Interp, fr *frame, a []Value) Value {
+		itf := a[0].(Iface)
+		sl, ok := itf.V.(SliceV)
+		if !ok {
+			panic(unsupported("sort.Slice on non-slice"))
+		}
+		n := int(in.concretize(sl.N, "sort.Slice length"))
+		off := int(in.concretize(sl.Off, "sort.Slice offset"))
+		for i := 1; i < n; i++ {
+			for j := i; j > 0; j-- {
+				r := in.call(fr, a[1], []Value{in.k64(int64(j)), in.k64(int64(j - 1))}, nil).(*Term)
+				if !in.decide(r) {
+					break
+				}
+				sl.Arr[off+j], sl.Arr[off+j-1] = sl.Arr[off+j-1], sl.Arr[off+j]
+			}
+		}
+		return nil
+	}
+	stubs["sort.Strings"] = func(in *Interp, fr *frame, a []Value) Value {
+		sl := a[0].(SliceV)
+		n := int(in.concretize(sl.N, "sort.Strings length"))
+		off := int(in.concretize(sl.Off, "sort.Strings offset"))
+		ss := make([]string, n)
+		for i := range ss {
+			s, ok := in.goString(sl.Arr[off+i])
+			if !ok {
+				panic(unsupported("sort.Strings of symbolic strings"))
+			}
+			ss[i] = s
+		}
+		sortStrings(ss)
+		for i := range ss {
+			sl.Arr[off+i] = ss[i]
+		}
+		return nil
+	}
+}
